@@ -167,6 +167,22 @@ def c10(ctx):
                       "plus exact/sparse/superset/static); a group (program x content) is non-trivial when some run makes >= 2 store calls")
 
 
+@check("C12")
+def c12(ctx):
+    ctx.assumptions += TRUST
+    ctx.assumptions.append("the generator's tag for deliberately unreadable variable texts (which error class a clearly invalid text of a type must give)")
+    # store faults: Machine.tla with StoreFail at every call (design level) + every fault position replayed into the real interpreter
+    store.store_check(ctx, "C12")
+    n, b = scale(ctx, (3000, 4), (8000, 16))
+    sem.trace_batches(ctx, "illtyped", "MachineTrace_C12.cfg", n, b)
+    sem.trace_batches(ctx, "mixed", "MachineTrace_C12.cfg", n, max(2, b // 2))
+    return ctx.finish("fault_enumeration", "two families: (a) store faults - for every program of the Machine.tla family and of a random origin-heavy corpus, "
+                      "a failure injected at the k-th store call for every k (TLC enumerates k and the reply shapes of the calls before it); "
+                      "(b) error-free-parsing programs, well-typed and broken in 0-2 places (types, names, arity, variable texts, assets, zero denominators), "
+                      "judged by TLC against MayFail/MustFail of SemErr.tla; non-trivial = a run that fails while executing or makes >= 2 store calls; "
+                      "distinct by (statement shape, outcome class, postings) resp. by program x content")
+
+
 def replay(path):
     rp = json.load(open(path))
     prop = rp.get("property", "C00")
